@@ -88,3 +88,64 @@ def explore_and_replay(rep, name, module_text, cfg_text, worker, ctx, clauses, i
         return res
     finally:
         tlc.rm_workdir(res.workdir)
+
+
+def last_states(dirpath):
+    """last state of every behaviour file written by `tlc -simulate file=...`"""
+    import re
+    out = []
+    for f in sorted(os.listdir(dirpath)):
+        with open(os.path.join(dirpath, f)) as fh:
+            t = fh.read()
+        i = t.rfind("\nSTATE_")
+        if i < 0:
+            continue
+        j = t.find("==", i)
+        body = t[j + 2:]
+        k = body.find("\n====")
+        out.append(body[:k] if k >= 0 else body)
+    return out
+
+
+def simulate_and_replay(rep, name, module_text, cfg_text, worker, ctx, clauses, num, depth, seed, invariants=(), properties=(),
+                        workers=8, procs=14, chunk=100, timeout=3600, module_name="MC"):
+    """random behaviours of the same specification (TLC simulation mode; invariants are checked along the way); the
+    final state of each behaviour carries its whole operation history, which is replayed into the implementation"""
+    wd = tlc.new_workdir(rep.prop + "-sim-" + name)
+    trdir = os.path.join(wd, "tr")
+    os.makedirs(trdir)
+    per = max(1, num // workers)
+    try:
+        res = tlc.run(module_name, module_text, cfg_text, workers=workers, simulate="file=%s/t,num=%d" % (trdir, per), depth=depth + 1,
+                      seed=seed, tag=rep.prop + "-simrun-" + name, timeout=timeout)
+        try:
+            m = {"model": name + " (simulation)", "states_generated": res.generated, "distinct": 0, "depth": depth,
+                 "wall_s": round(res.wall, 2), "invariants": list(invariants), "action_properties": list(properties)}
+            import re
+            g = re.search(r"The number of states generated: (\d+)", res.stdout)
+            if g:
+                m["states_generated"] = int(g.group(1))
+                rep.transitions += int(g.group(1))
+            rep.models.append(m)
+            if res.violated:
+                rep.violation("model:" + res.violated, "model/%s/%s" % (name, res.violated),
+                              "TLC (simulation): %s %s is violated by the specification model %s" % (res.violation_kind, res.violated, name),
+                              {"model": name, "tlc": (res.trace or "")[:3000]})
+                return
+            states = last_states(trdir)
+            c = mp.get_context("fork")
+            parts = [states[i:i + chunk] for i in range(0, len(states), chunk)]
+            with c.Pool(procs, initializer=_init, initargs=(worker[0], worker[1], ctx, os.environ.get("VERIF_REPO"))) as pool:
+                for out in pool.imap_unordered(_work, parts):
+                    rep.traces += out["n"]
+                    rep.evaluations += out["ops"]
+                    rep.count(name + ":simulated_behaviours", out["n"])
+                    for f in out["fails"]:
+                        if f["clause"] in clauses:
+                            rep.violation(f["clause"], f["key"], f["detail"], jsonable(f["case"]))
+                        elif len(rep.drift) < 200:
+                            rep.drift.append({"clause": f["clause"], "key": f["key"], "detail": f["detail"]})
+        finally:
+            tlc.rm_workdir(res.workdir)
+    finally:
+        tlc.rm_workdir(wd)
